@@ -81,7 +81,7 @@ CHECKS = {
          "synctest bubble in virtual time, and TLC-generated reconcile outcome sequences (ok/error/panic/requeue with and "
          "without error/skip) drive a probe QController on the real runtime; both traces are judged by TLC (TraceQueue, "
          "TraceBackoff: exact requeue intervals, randomised back-off envelope, reset on success). "
-         "Release / Requeue on an already released handle (the runtime's own deferred Release after Requeue) are part of the command sequences and must be no-ops.",
+         "Release / Requeue on an already released handle (the runtime's own deferred Release after Requeue) are part of the command sequences and must be no-ops. The queue's event loop carries build-tag guarded transition hooks: every transition it takes while the harness drivers and the repository's own test suites (queue stress tests, queue controllers of the conformance suites) run is judged by the same property-level judge (TraceQueue.tla).",
     note="Trusted: TLC, synctest virtual time, the verif facade (type aliases only). Order among simultaneously due items is "
          "not part of the property; randomised back-off is checked against its envelope only.",
     technique="TLA+ queue/back-off models + TLC; model-based replay in virtual time; TLC trace validation",
